@@ -32,9 +32,9 @@ ASSUMPTIONS = [
 ]
 FLOORS = {"quick": {"evaluations": 300, "hashes_compared": 600, "signatures_verified": 150,
                     "signing_runs": 60, "files_scanned_for_private_key": 200},
-          "thorough": {"evaluations": 15000, "hashes_compared": 30000,
-                       "signatures_verified": 8000, "signing_runs": 3000,
-                       "files_scanned_for_private_key": 10000}}
+          "thorough": {"evaluations": 80000, "hashes_compared": 240000,
+                       "signatures_verified": 80000, "signing_runs": 30000,
+                       "files_scanned_for_private_key": 100000}}
 
 _opened = []
 _hook_installed = False
@@ -65,7 +65,7 @@ def install_hook():
 def shards(tier, seed):
     if tier == "quick":
         return [{"seed": seed * 1000 + i, "n": 12} for i in range(16)]
-    return [{"seed": seed * 1000 + i, "n": 150} for i in range(32)]
+    return [{"seed": seed * 1000 + i, "n": 2000} for i in range(32)]
 
 
 def run_main(mod_main, argv):
